@@ -88,6 +88,8 @@ pub fn eval(t: &Value, ctx: &Ctx) -> Vec<u8> {
         "u32be" => (num(&a[1]) as u32).to_be_bytes().to_vec(),
         "vi" => varint(num(&a[1]), None),
         "viw" => varint(num(&a[1]), Some(num(&a[2]))),
+        // CompactSize 2^32 + n in its nine-byte form
+        "vihi" => { let mut v = vec![0xffu8]; v.extend_from_slice(&((1u64 << 32) + num(&a[1])).to_le_bytes()); v }
         "f" => {
             let name = a[1].as_str().unwrap();
             // attribute (4th element) selects a deliberately invalid variant of the field
